@@ -11,6 +11,7 @@ GENERATORS = {
     "Params_gen": "translator.gen_params",
     "AdjProg_gen": "translator.gen_adjprog",
     "SetIter_gen": "translator.gen_setiter",
+    "LagOffset_gen": "translator.gen_lagoffset",
 }
 
 
